@@ -41,7 +41,12 @@ DEEP = set(KINDS[2:])
 
 def build(spec):
     cls = c10.classes()[spec["c"]]
-    return cls([(k, build_value(v)) for k, v in spec["items"]])
+    m = cls([(k, build_value(v)) for k, v in spec["items"]])
+    if spec.get("attr"):
+        # an extra instance attribute, as every module from pvl.loads() has (.errors)
+        m.errors = [3]
+        m.note = "x"
+    return m
 
 
 def build_value(v):
@@ -195,14 +200,15 @@ def spec_strategy():
 
     def container(children):
         return st.builds(
-            lambda c, items: {"c": c, "items": items},
-            clsname, st.lists(st.tuples(key, children), max_size=5))
+            lambda c, items, attr: {"c": c, "items": items, "attr": attr},
+            clsname, st.lists(st.tuples(key, children), max_size=5), st.booleans())
 
     leaf = st.one_of(scalar, lst)
     value = st.recursive(leaf, lambda ch: st.one_of(leaf, container(ch)),
                          max_leaves=12)
-    return st.builds(lambda c, items: {"c": c, "items": items}, clsname,
-                     st.lists(st.tuples(key, value), max_size=7))
+    return st.builds(lambda c, items, attr: {"c": c, "items": items, "attr": attr},
+                     clsname, st.lists(st.tuples(key, value), max_size=7),
+                     st.booleans())
 
 
 @st.composite
@@ -270,7 +276,7 @@ def shrink(case, still_fails):
                                 lambda h: still_fails(with_(history=h)))
     if not cur["path"]:
         def pred(items):
-            return still_fails(with_(spec={"c": cur["spec"]["c"], "items": items}))
+            return still_fails(with_(spec={**cur["spec"], "items": items}))
         items = shrink_seq(cur["spec"]["items"], pred)
-        cur["spec"] = {"c": cur["spec"]["c"], "items": items}
+        cur["spec"] = {**cur["spec"], "items": items}
     return cur
